@@ -486,6 +486,22 @@ archive_read_open1(struct archive *_a)
 		if (e != 0) {
 			/* If the open failed, call the closer to clean up. */
 			read_client_close_proxy(a);
+			/*
+			 * The closer has released the callback data; forget
+			 * it and the callbacks that worked on it, so that
+			 * another attempt to open this handle (it is still
+			 * new) has to register both again and cannot run
+			 * the old callbacks on what is gone.
+			 */
+			free(a->client.dataset);
+			a->client.dataset = NULL;
+			a->client.nodes = 0;
+			a->client.opener = NULL;
+			a->client.reader = NULL;
+			a->client.skipper = NULL;
+			a->client.seeker = NULL;
+			a->client.closer = NULL;
+			a->client.switcher = NULL;
 			return (e);
 		}
 	}
